@@ -1236,6 +1236,12 @@ fn c06_cases(ctx: &mut Ctx) {
 
 // ------------------------------------------------------------------------------------------ C07
 
+/// wide ranges of the c07 generator (waists of all three beams, crystal length), metres
+const WAIST_LO: f64 = 2e-6;
+const WAIST_HI: f64 = 2e-2;
+const LENGTH_LO: f64 = 2e-5;
+const LENGTH_HI: f64 = 0.3;
+
 fn next_up(x: f64) -> f64 {
   if x.is_nan() || x == f64::INFINITY {
     return x;
@@ -1491,6 +1497,116 @@ fn range_route(ctx: &mut Ctx, spdc: &SPDC, scaled: &SPDC, f: f64, range: Frequen
   ctx.s("C07.invariant", wi_ <= 1e-9, "invariant/range-route", &format!("relerr={:e} judged={} {}", wi_, judged, det));
 }
 
+/// The envelope clause on one setup: amplitude 1 at the pump centre frequency, intensity ½ at ± half the frequency span of
+/// the wavelength FWHM (and, Gaussian, 2⁻⁴ at ± one span); K `pump_amp` at the half-span points.
+fn envelope_block(ctx: &mut Ctx, spdc: &SPDC, desc: &str) {
+  let wp0 = raw_w(spdc.pump.frequency());
+  let lp = spdc.pump.vacuum_wavelength();
+  let bw = spdc.pump_bandwidth;
+  let a0 = pump_spectral_amplitude(w(wp0), spdc);
+  ctx.s("C07.envelope", (a0 - 1.0).abs() <= 1e-12, "envelope/centre", &format!("amp={:e} {}", a0, desc));
+  let span = raw_w(vacuum_wavelength_to_frequency(lp - 0.5 * bw) - vacuum_wavelength_to_frequency(lp + 0.5 * bw));
+  for sgn in [1.0, -1.0] {
+    let om = wp0 + sgn * 0.5 * span;
+    let a = pump_spectral_amplitude(w(om), spdc);
+    // the argument wp0 ± span/2 is itself rounded to ulp(wp0): relative error ulp(wp0)/span in x
+    let slack = 1e-9 + 4.0 * (wp0 * f64::EPSILON) / span.abs();
+    ctx.s(
+      "C07.envelope",
+      (a * a - 0.5).abs() <= slack,
+      "envelope/half",
+      &format!("intensity={:.17e} omega={:.17e} span={:.17e} {}", a * a, om, span, desc),
+    );
+    ctx.k("pump_amp", &format!("{} {} {}", fl(om), fl(wp0), fl(bw.value_unsafe)), &fl(a));
+    // Gaussian: at ± one full span the intensity is (1/2)^4
+    let om2 = wp0 + sgn * span;
+    let a2 = pump_spectral_amplitude(w(om2), spdc);
+    ctx.s(
+      "C07.envelope",
+      (a2 * a2 - 0.0625).abs() <= 0.5 * slack,
+      "envelope/gaussian-full-span",
+      &format!("intensity={:.17e} omega={:.17e} span={:.17e} {}", a2 * a2, om2, span, desc),
+    );
+  }
+}
+
+/// `jsa_raw` = envelope × phase matching AT the half-span points: for a pair whose sum sits at ω₀ ± Δ/2 the raw joint amplitude
+/// is 2^-½ of the phase-matching amplitude (and the raw singles intensity ½ of the singles phase-matching function), whatever the
+/// bandwidth.  (`factor/envelope-times-pm` multiplies by the crate's own envelope value, so it cannot see an envelope that is
+/// wrong in the same way on both sides.)
+fn half_span_factor(ctx: &mut Ctx, se: &SPDC, integ: Integrator, divs: usize, desc: &str, singles: bool) {
+  let wp0 = raw_w(se.pump.frequency());
+  let lp = se.pump.vacuum_wavelength();
+  let bw = se.pump_bandwidth;
+  let thr = se.pump_spectrum_threshold;
+  // the envelope there (2^-½) has to lie above the threshold
+  if !(thr <= 0.5) {
+    ctx.count("c07/half-span/threshold-above-envelope");
+    return;
+  }
+  let span = raw_w(vacuum_wavelength_to_frequency(lp - 0.5 * bw) - vacuum_wavelength_to_frequency(lp + 0.5 * bw));
+  let slack = 1e-9 + 4.0 * (wp0 * f64::EPSILON) / span.abs();
+  let ws = raw_w(se.signal.frequency());
+  for sgn in [1.0, -1.0] {
+    let om = wp0 + sgn * 0.5 * span;
+    let wi = om - ws;
+    let off_box = ws <= 0.0 || wi <= 0.0 || ws > wp0 || wi > wp0 || (ws - wi).abs() > 0.75 * wp0;
+    if off_box {
+      ctx.count("c07/half-span/off-box");
+      continue;
+    }
+    let det = format!("ws={:.17e} wi={:.17e} span={:.17e} divs={} {}", ws, wi, span, divs, desc);
+    let s1 = se.clone();
+    let r = guard(move || {
+      let raw = jsa_raw(w(ws), w(wi), &s1, integ);
+      let pm = *(phasematch_fiber_coupling(w(ws), w(wi), &s1, integ) / PerMeter4::new(1.0));
+      let sing = if singles {
+        Some((jsi_singles_raw(w(ws), w(wi), &s1, integ), *(phasematch_singles_fiber_coupling(w(ws), w(wi), &s1, integ) / PerMeter3::new(1.0))))
+      } else {
+        None
+      };
+      (raw, pm, sing)
+    });
+    match r {
+      None => ctx.s("C07.finite", !in_window(se, ws, wi), "finite/panic", &det),
+      Some((raw, pm, sing)) => {
+        let pn = pm.norm();
+        if pn.is_finite() && pn > 1e-290 && pn < 1e290 {
+          let q = raw.norm() / pn;
+          ctx.s("C07.factor", (q * q - 0.5).abs() <= slack, "factor/half-span", &format!("ratio2={:.17e} raw=({:e},{:e}) pm=({:e},{:e}) {}", q * q, raw.re, raw.im, pm.re, pm.im, det));
+          ctx.count("c07/half-span/judged");
+        } else {
+          ctx.count("c07/half-span/pm-zero-or-out-of-range");
+        }
+        if let Some((sraw, fs)) = sing {
+          if fs.is_finite() && fs.abs() > 1e-290 && fs.abs() < 1e290 {
+            let q = sraw / fs;
+            ctx.s("C07.singles_factor", (q - 0.5).abs() <= slack, "singles-factor/half-span", &format!("ratio={:.17e} sraw={:e} fs={:e} {}", q, sraw, fs, det));
+          }
+        }
+      }
+    }
+  }
+}
+
+/// The envelope clause holds for every positive bandwidth (0 < fwhm < 2λp): clones of the setup with the bandwidth log-uniform
+/// over 1e-20 m … 1e-7 m (sub-femtometre CW linewidths up to 100 nm) and, one in six, 2 %…150 % of the pump wavelength.
+fn envelope_decades(ctx: &mut Ctx, spdc: &SPDC, integ: Integrator, divs: usize) {
+  let lpv = spdc.pump.vacuum_wavelength().value_unsafe;
+  for k in 0..3 {
+    let mut se = spdc.clone();
+    let bwv = if ctx.rng.below(6) == 0 { lpv * ctx.rng.range(0.02, 1.5) } else { ctx.rng.log_range(1e-20, 1e-7) };
+    se.pump_bandwidth = bwv * M;
+    ctx.count(&format!("c07/envelope-decades/bw-1e{:+03}", bwv.log10().floor() as i64));
+    let d = describe(&se);
+    envelope_block(ctx, &se, &d);
+    let sw = fwhm_to_spectral_width(se.pump.vacuum_wavelength(), se.pump_bandwidth);
+    ctx.k("spectral_width", &format!("{} {}", fl(lpv), fl(bwv)), &fl(raw_w(sw)));
+    half_span_factor(ctx, &se, integ, divs, &d, k == 0);
+  }
+}
+
+/// the statement of C07 on the real code
 fn c07_cases(ctx: &mut Ctx) {
   let opts = GenOpts { plane_wave: false, phase_matched: false, counter: None, tilted_biaxial: false, unpoled: false };
   let opts_pm = GenOpts { plane_wave: false, phase_matched: true, counter: None, tilted_biaxial: false, unpoled: false };
@@ -1509,6 +1625,39 @@ fn c07_cases(ctx: &mut Ctx) {
       }
     };
     let mut spdc = spdc;
+    // wide decades (each with probability 1/8, independently): the statement quantifies over all setups, and a cut-off such as
+    // `if x < f64::EPSILON` on a quantity in SI units only shows many decades away from the everyday values
+    if ctx.rng.below(8) == 0 {
+      spdc.pump_bandwidth = ctx.rng.log_range(1e-20, 1e-7) * M;
+      ctx.count("c07/wide/bandwidth");
+    }
+    if ctx.rng.below(8) == 0 {
+      spdc.pump_spectrum_threshold = 10f64.powf(-ctx.rng.log_range(0.05, 300.0));
+      ctx.count("c07/wide/threshold");
+    }
+    if ctx.rng.below(8) == 0 {
+      spdc.pump_average_power = ctx.rng.log_range(1e-6, 1e6) * MILLIW;
+      ctx.count("c07/wide/power");
+    }
+    if ctx.rng.below(8) == 0 {
+      spdc.deff = MetersPerMilliVolt::new(ctx.rng.log_range(1e-4, 1e4) * 1e-15);
+      ctx.count("c07/wide/deff");
+    }
+    if ctx.rng.below(8) == 0 {
+      let (a, b, c) = (ctx.rng.log_range(WAIST_LO, WAIST_HI), ctx.rng.log_range(WAIST_LO, WAIST_HI), ctx.rng.log_range(WAIST_LO, WAIST_HI));
+      spdc.signal.set_waist(BeamWaist::new(a * M));
+      spdc.idler.set_waist(BeamWaist::new(b * M));
+      spdc.pump.set_waist(BeamWaist::new(c * M));
+      ctx.count("c07/wide/waists");
+    }
+    if ctx.rng.below(8) == 0 {
+      spdc.crystal_setup.length = ctx.rng.log_range(LENGTH_LO, LENGTH_HI) * M;
+      ctx.count("c07/wide/length");
+    }
+    if view(&spdc).map(|v| v.all_finite()) != Some(true) {
+      ctx.count("c07/setup-rejected");
+      continue;
+    }
     // a quarter of the setups are NOT energy matched: the signal (or the idler) is retuned by a fraction of the pump's
     // spectral width without recomputing the other beam, so ωs0 + ωi0 ≠ ωp — the envelope is centred on the pump
     if ctx.rng.below(4) == 0 {
@@ -1544,31 +1693,9 @@ fn c07_cases(ctx: &mut Ctx) {
     let thr = spdc.pump_spectrum_threshold;
 
     // ---- envelope: amplitude 1 at the centre, intensity 1/2 at ± half the frequency span of the FWHM
-    let a0 = pump_spectral_amplitude(w(wp0), &spdc);
-    ctx.s("C07.envelope", (a0 - 1.0).abs() <= 1e-12, "envelope/centre", &format!("amp={:e} {}", a0, desc));
-    let span = raw_w(vacuum_wavelength_to_frequency(lp - 0.5 * bw) - vacuum_wavelength_to_frequency(lp + 0.5 * bw));
-    for sgn in [1.0, -1.0] {
-      let om = wp0 + sgn * 0.5 * span;
-      let a = pump_spectral_amplitude(w(om), &spdc);
-      // the argument wp0 ± span/2 is itself rounded to ulp(wp0): relative error ulp(wp0)/span in x
-      let slack = 1e-9 + 4.0 * (wp0 * f64::EPSILON) / span.abs();
-      ctx.s(
-        "C07.envelope",
-        (a * a - 0.5).abs() <= slack,
-        "envelope/half",
-        &format!("intensity={:.17e} omega={:.17e} span={:.17e} {}", a * a, om, span, desc),
-      );
-      ctx.k("pump_amp", &format!("{} {} {}", fl(om), fl(wp0), fl(bw.value_unsafe)), &fl(a));
-      // Gaussian: at ± one full span the intensity is (1/2)^4
-      let om2 = wp0 + sgn * span;
-      let a2 = pump_spectral_amplitude(w(om2), &spdc);
-      ctx.s(
-        "C07.envelope",
-        (a2 * a2 - 0.0625).abs() <= 0.5 * slack,
-        "envelope/gaussian-full-span",
-        &format!("intensity={:.17e} omega={:.17e} span={:.17e} {}", a2 * a2, om2, span, desc),
-      );
-    }
+    envelope_block(ctx, &spdc, &desc);
+    // ---- the same clause for every positive bandwidth: 13 decades below and up to 1.5 pump wavelengths
+    envelope_decades(ctx, &spdc, integ, divs);
 
     // ---- jsa_raw = envelope × phase-matching amplitude ; finite inside the window
     let v = view(&spdc).unwrap();
